@@ -580,6 +580,26 @@ def check_bdr_search(prog, report):
     report.floor('R-contain', 7)
 
 
+def check_diam(prog, report):
+    """the cell size used as the Jacobian of the load integrals is the side
+    length read off the vertices (not inferred from the level: root cells
+    need not have side 1)"""
+    ci = prog.cls(IM, 'Element')
+    d = ci.methods.get('diam')
+    if d is None:
+        raise AnalysisError('%s: Element.diam not found' % IM)
+    ret = [n for n in ast.walk(d.node) if isinstance(n, ast.Return)]
+    from .lift import same_any
+    ok = len(ret) == 1 and len(d.node.body) == 1 and same_any(
+        ret[0].value, 'self.vertices[1].x - self.vertices[0].x',
+        'self.vertices[2].x - self.vertices[3].x',
+        'self.vertices[3].y - self.vertices[0].y',
+        'self.vertices[2].y - self.vertices[1].y')
+    report.check(ok, 'R-geometry', 'initial_mesh Element.diam', d.where(),
+                 'diam is one side of the square, measured between two '
+                 'adjacent vertices', construct='initial_mesh.Element.diam')
+
+
 def check_quad_init(prog, report):
     fi = prog.func(IM, 'InitialMesh.__init__')
     fn = fi.node
